@@ -82,8 +82,12 @@ def run(ctx):
                 return isinstance(e, ast.Call) and len(e.args) == 1 and isinstance(e.args[0], ast.Name) and e.args[0].id == x and \
                     ((isinstance(e.func, ast.Name) and e.func.id in names) or (isinstance(e.func, ast.Attribute) and e.func.attr in names))
             stop_true = [n for n in body_nodes if n.kind == "guard" and n.outcome is True and is_call_on_x(n.cond, ("stop",))]
-            abort_true = [n for n in body_nodes if n.kind == "guard" and n.outcome is True and isinstance(n.cond, ast.Call)
-                          and norm(n.cond.func).endswith("_abort_at_level")]
+            abort_flags = {t.id for a in walk_own(f.node) if isinstance(a, ast.Assign) and any(
+                isinstance(c, ast.Call) and norm(c.func).endswith("_abort_at_level") for c in ast.walk(a.value))
+                for t in a.targets if isinstance(t, ast.Name)}
+            abort_true = [n for n in body_nodes if n.kind == "guard" and (
+                (n.outcome is True and isinstance(n.cond, ast.Call) and norm(n.cond.func).endswith("_abort_at_level")) or
+                (isinstance(n.cond, ast.Name) and n.cond.id in abort_flags))]
             filter_tests = [n for n in body_nodes if n.kind == "test" and is_call_on_x(n.cond, ("filter_",))]
             yields_x = [n for n in body_nodes if n.kind == "stmt" and isinstance(n.ast, ast.Expr) and isinstance(n.ast.value, ast.Yield)
                         and isinstance(n.ast.value.value, ast.Name) and n.ast.value.value.id == x]
@@ -128,17 +132,67 @@ def run(ctx):
                     ctx.inst("S5", f, n.ast, "one tuple per admitted level, independent of filter_")
     # ---- helpers and start-up
     ab = p.func("AbstractIter", "_abort_at_level")
-    rets = [r for r in walk_own(ab.node) if isinstance(r, ast.Return)]
-    ok = False
-    if len(rets) == 1 and isinstance(rets[0].value, ast.BoolOp) and isinstance(rets[0].value.op, ast.And) and len(rets[0].value.values) == 2:
-        a, b = rets[0].value.values
-        nt = none_test(a)
-        lv, mv = ab.posparams[0], ab.posparams[1]
-        if nt == (mv, False) and isinstance(b, ast.Compare) and len(b.ops) == 1:
-            l, r, op = norm(b.left), norm(b.comparators[0]), type(b.ops[0])
-            ok = (l, r, op) == (lv, mv, ast.Gt) or (l, r, op) == (mv, lv, ast.Lt)
+    lvp, mxp = ab.posparams[0], ab.posparams[1]
+    acfg = typer.cfg_of(ab)
+
+    def aval(e, is_none):
+        """value of an expression of _abort_at_level when maxlevel is / is not None: 'F', 'T', 'GT' (level > maxlevel) or '?'"""
+        if isinstance(e, ast.Constant) and isinstance(e.value, bool):
+            return "T" if e.value else "F"
+        nt = none_test(e)
+        if nt is not None and nt[0] == mxp:
+            return "T" if nt[1] == is_none else "F"
+        if isinstance(e, ast.Compare) and len(e.ops) == 1:
+            l, r, op = norm(e.left), norm(e.comparators[0]), type(e.ops[0])
+            if (l, r, op) == (lvp, mxp, ast.Gt) or (l, r, op) == (mxp, lvp, ast.Lt):
+                return "GT"
+            return "?"
+        if isinstance(e, ast.UnaryOp) and isinstance(e.op, ast.Not):
+            v = aval(e.operand, is_none)
+            return {"T": "F", "F": "T"}.get(v, "?")
+        if isinstance(e, ast.BoolOp):
+            vals = [aval(v, is_none) for v in e.values]
+            if isinstance(e.op, ast.And):
+                for v in vals:
+                    if v == "F":
+                        return "F"
+                    if v != "T":
+                        rest = [x for x in vals[vals.index(v):] if x != "T"]
+                        return rest[0] if len(rest) == 1 else "?"
+                return "T"
+            for v in vals:
+                if v == "T":
+                    return "T"
+                if v != "F":
+                    rest = [x for x in vals[vals.index(v):] if x != "F"]
+                    return rest[0] if len(rest) == 1 else "?"
+            return "F"
+        if isinstance(e, ast.IfExp):
+            t = aval(e.test, is_none)
+            if t == "T":
+                return aval(e.body, is_none)
+            if t == "F":
+                return aval(e.orelse, is_none)
+        return "?"
+    ok = True
+    rets_ab = acfg.stmt_nodes(("return",))
+    for is_none, want in ((True, "F"), (False, "GT")):
+        seen_case = False
+        for rn in rets_ab:
+            feasible = True
+            for c, o, _ in acfg.guards_of(rn):
+                v = aval(c, is_none)
+                if v in ("T", "F") and (v == "T") != o:
+                    feasible = False
+            if not feasible or rn.ast.value is None:
+                continue
+            seen_case = True
+            if aval(rn.ast.value, is_none) != want:
+                ok = False
+        if not seen_case:
+            ok = False
     if ok:
-        ctx.inst("S3", ab, rets[0], "abort ⇔ maxlevel is not None and level > maxlevel")
+        ctx.inst("S3", ab, ab.node.name, "abort ⇔ maxlevel is not None and level > maxlevel (both cases of maxlevel evaluated)")
     else:
         ctx.viol("S3", ab, ab.node, "_abort_at_level is not `maxlevel is not None and level > maxlevel`", construct="_abort_at_level definition")
     gc = p.func("AbstractIter", "_get_children")
@@ -175,9 +229,9 @@ def run(ctx):
                 else:
                     ctx.viol("S4", init, n, "%s is `%s`, expected `%s`" % (t, " or ".join(vals), " or ".join(want)))
     rule_optint_truthiness(ctx, typer, {m for m in p.modules if m.startswith(IT)}, rule="S3")
-    ctx.floor("S1", 10)
-    ctx.floor("S2", 12)
-    ctx.floor("S3", 10)
-    ctx.floor("S4", 14)
+    ctx.floor("S1", 8)
+    ctx.floor("S2", 8)
+    ctx.floor("S3", 8)
+    ctx.floor("S4", 10)
     ctx.floor("S5", 1)
-    ctx.floor("S6", 6)
+    ctx.floor("S6", 4)
